@@ -230,7 +230,9 @@ func (f *Formatter) formatNode(n *html.Node, buf *strings.Builder, depth int) {
 
 	case html.ElementNode:
 		// Style/script blocks - preserve content as-is
-		if n.Data == "style" || n.Data == "script" {
+		// (only HTML elements: inside svg / math these names are ordinary elements whose
+		// text the parser entity-decodes)
+		if (n.Data == "style" || n.Data == "script") && n.Namespace == "" {
 			f.formatRawTextElement(n, buf, indent)
 			return
 		}
@@ -465,7 +467,7 @@ func (f *Formatter) renderInlineChildren(n *html.Node) string {
 // isRawTextElement reports whether the parser keeps the content of n as raw text (no
 // entities, no child elements), which therefore must be written back unescaped.
 func isRawTextElement(n *html.Node) bool {
-	if n == nil || n.Type != html.ElementNode {
+	if n == nil || n.Type != html.ElementNode || n.Namespace != "" {
 		return false
 	}
 	switch n.DataAtom {
